@@ -1979,6 +1979,14 @@ class ReferenceManager:
             assert all(ref is not r for r in refs)
             refs.append(ref)
 
+    def add_ref(self, ref):
+        """Track a reference created together with its space"""
+        value = ref.interface
+        if not isinstance(value, Interface):
+            refs = self._valid_to_refs.setdefault(id(value), [])
+            if all(ref is not r for r in refs):
+                refs.append(ref)
+
     def del_ref(self, impl, name):
 
         refdict = impl.own_refs
